@@ -7,19 +7,44 @@ MANIFEST = {
             '(no task execution is created by any delivery or command other than resume while PAUSED); '
             'paused_stays_paused. The model is tied to the real engine by the `core` stream: after EVERY event '
             '(message, post-commit operation, scheduler job, action result, pause/resume/stop) committed rows and '
-            'pending deliveries of the real engine must equal the model. "Same result after resume" is decided by the '
-            'engine stream (paired paused/unpaused runs of generated programs, monitors read on the real traces), not '
-            'by a theorem.',
+            'pending deliveries of the real engine must equal the model. "SAME RESULT AFTER RESUME" IS A THEOREM of the '
+            'engine model (Mistral.Props.C02Sem, see C02): the engine model refines the declarative semantics Mistral.Sem '
+            '(outcome = function of definition + action results), for every definition of the class (acyclic, SpecOK: joins of '
+            'every kind, forks, several activations), every oracle and every plain history with pause / resume ANYWHERE: '
+            'sound, complete_at_quiescence, pause_resume_same_outcome (a quiescent history with pause / resume '
+            'rounds has the same workflow state and set of task rows (name, state, next_tasks) as ANY quiescent history that '
+            'was never paused), at full strength since the two defects that stood in the way are repaired (acd6a089; '
+            'repo_patches/20: a stale start_task(first_run=False) request for a task that has meanwhile completed is ignored - '
+            'regression stale_request_regression + corpus/C02). Tie: stream `sem` (real engine with pause / resume rounds at '
+            'random points run to quiescence vs the semantics computed by the Lean driver). Programs with data flow: engine '
+            'stream (paired paused/unpaused runs of generated programs, monitors read on the real traces).',
     'note': 'One event = one committed transaction (in-process atomicity); multi-process sub-transaction races are '
             'not exhibited. Data flow/expressions/policies/sub-workflows are outside Mistral.Engine (covered by the '
-            'monitors only). Sub-workflow pause propagation: monitors only.',
+            'monitors only). Sub-workflow trees: Mistral.Tree models pause_workflow / resume_workflow / _on_action_update '
+            'calling each other inside one transaction (sub-workflows first, then the workflow, then the parent task and '
+            'the parent workflow: synchronously for a plain parent task, through a scheduler job for a with-items one), the '
+            'backlog, Task.complete while PAUSED, Workflow.resume / RunExistingTask; tied by the tree stream (pause / resume '
+            '/ stop commands on any node of generated trees; rows, backlog and pending deliveries equal after EVERY event). '
+            'Mistral.Props.C10Tree: no_task_created_while_paused (ALL trees / states, lifted to `step`: under every event '
+            'except the resume command and the scheduled update job of a with-items child a PAUSED execution stays '
+            'PAUSED or is completed and gets NO task row; relation Quiet, Lemmas/TreePause) and its run version; '
+            'pause_request_is_good / resume_request_is_good (the whole pause / resume transaction incl. propagation '
+            'never touches a finished execution; resume needs repo patch 20); pause_subtree_full_fails (the pause loop '
+            'skips running executions below a finished child: known finding, corpus/C10/tree_pause_skips.json); '
+            'function-level dispatch_into_paused_creates_no_task, dispatch_list_into_paused_creates_no_task, '
+            'complete_in_paused_creates_no_task; the propagation on concrete trees (pause root / leaf, resume root / leaf, '
+            'pause then cancel). pause_propagates / pause_acknowledged_tree / pause_only_pauses (ALL reachable trees: a '
+            'pause request on an unfinished execution does not raise and every execution reached through unfinished '
+            'sub-workflows at any depth is PAUSED in the same transaction, which creates no row and only moves '
+            'RUNNING to PAUSED; Lemmas/TreeProp). NOT proved for all trees: the calling task of each paused execution '
+            'is PAUSED; resume brings them back (decided by the tree stream and its monitors).',
 }
 RULE = ('stream core: data-free single-activation programs x oracles x schedules x pause/resume/stop at random points, '
         'model vs real after every event; stream engine (mode pause): generated programs with data flow, pause and '
         'resume at random points, paired with the unpaused run; non-trivial = a join or an operator command in the '
-        'trace; distinct = distinct (definition, oracle, schedule seed, commands)')
+        'trace; distinct = distinct (definition, oracle, schedule seed, commands); stream sem as in C02')
 TRUSTED = ['harness seams (post-commit thread, RPC client, executor, scheduler dispatcher) replaced by recorders']
-LEAN_MODULES = ['Mistral.Props.C10']
+LEAN_MODULES = ['Mistral.Props.C10', 'Mistral.Props.C10Tree', 'Mistral.Props.C02Sem']
 
 
 def correspond(ctx):
@@ -28,6 +53,12 @@ def correspond(ctx):
                      + [{'n_programs': ctx.n(10, 300), 'mode': 'mixed'}] * 7)
     par.run_parallel(ctx, 'harness.engine_stream', 'run_chunk',
                      [{'n_programs': ctx.n(10, 300), 'props': ['C10'], 'mode': 'pause'}] * 14)
+    # the execution TREE: pause / resume (and stop) commands on any node of generated sub-workflow trees,
+    # Mistral.Tree vs the real engine after every event + the monitors of the first sentence of C10
+    par.run_parallel(ctx, 'harness.tree_stream', 'run_chunk',
+                     [{'n_cases': ctx.n(8, 120), 'props': ['C10'], 'gen_kw': {'p_pause': 0.6}}] * 14)
+    # "same result after resume" against the declarative semantics (theorem pause_resume_same_outcome)
+    par.run_parallel(ctx, 'harness.sem_stream', 'run_chunk', [{'n_programs': ctx.n(5, 150)}] * 14)
 
 
 def search(ctx):
@@ -43,5 +74,9 @@ def search(ctx):
 
 
 def replay(ctx, rep):
+    if isinstance(rep.get('replay'), dict) and rep['replay'].get('stream') == 'sem':
+        from harness import sem_stream
+        sem_stream.replay(ctx, rep)
+        return
     from harness import engine_stream
     engine_stream.replay(ctx, rep, ['C10'])
